@@ -250,7 +250,9 @@ func runE2ECase(t *testing.T, o *out, r *rand.Rand) {
 	}
 	st := newStore(kind)
 	defer st.close()
-	rl := &relay{r: r, drops: map[string]int{}}
+	// the relay draws from its OWN generator (seeded from the case's), used only under rl.mu: the case generator `r` is used
+	// by this goroutine while packets are in flight (e.g. filler publishing), Send runs on other goroutines
+	rl := &relay{r: rand.New(rand.NewSource(r.Int63())), drops: map[string]int{}}
 	fp := &relayFace{rl: rl}
 	fc := &relayFace{rl: rl}
 	fp.peer, fc.peer = fc, fp
